@@ -372,14 +372,33 @@ def addExtras (h : Headers) : List (Str × List Str) → Headers
 /-- the loop deleting every header whose canonical name starts with `Impersonate-` -/
 def delImpersonate (h : Headers) : Headers := h.filter (fun e => !hasPrefix (canonicalKey e.1) hImpPrefix)
 
-/-- `dynamicImpersonatingRoundTripper.WrapRequest` with a context user -/
-def wrapRequest (h : Headers) (u : Identity) : Headers :=
+/-- `headerValueSurvives`: no SP / HTAB at `v[0]` or `v[len(v)-1]`, no control byte (`(b < ' ' && b != '\t') || b == 0x7f`) -/
+def headerValueSurvives (v : Str) : Bool :=
+  !(match v.head?, v.getLast? with
+    | some a, some z => isOWS a || isOWS z
+    | _, _ => false) &&
+  v.all (fun b => !((b < 32 && b != 9) || b == 127))
+
+/-- `checkImpersonationValues` has no complaint: name, every group, every extra value survive -/
+def checkImpersonationValues (u : Identity) : Bool :=
+  headerValueSurvives u.name && u.groups.all headerValueSurvives && u.extra.all (fun e => e.2.all headerValueSurvives)
+
+/-- the header writing part of `WrapRequest` (everything but the value check) -/
+def wrapHeaders (h : Headers) (u : Identity) : Headers :=
   if !(hget h hImpUser).isEmpty then h
   else
     let h1 := delImpersonate h
     let h2 := hset h1 hImpUser u.name
     let h3 := addGroups h2 u.groups
     addExtras h3 u.extra
+
+/-- `dynamicImpersonatingRoundTripper.WrapRequest` with a context user: `none` is the error returned when the identity has a
+    value a header cannot carry (the check sits after the early return and before anything is written; whether the source
+    has it is regenerated) -/
+def wrapRequest (h : Headers) (u : Identity) : Option Headers :=
+  if !(hget h hImpUser).isEmpty then some h
+  else if KG.Gen.C02.wrapRequestChecksValues && !checkImpersonationValues u then none
+  else some (wrapHeaders h u)
 
 /-- net/http's transport refuses a request with an invalid header field name or value -/
 def transportOK (h : Headers) : Bool := h.all (fun e => validName e.1 && e.2.all validValue)
@@ -410,11 +429,26 @@ inductive Outcome where
   | forbidden
   /-- 502: the transport refused to send a header the gateway generated; nothing reaches the upstream -/
   | transportRefused
+  /-- 502 on both paths: `WrapRequest` returned an error (`RoundTrip` returns it to the reverse proxy's error handler,
+      `DialForUpgrade` returns it to the upgrade handler's responder); nothing reaches the upstream -/
+  | valueRefused
   /-- upgrade path: the upstream's own server refused the header fields with 400 and served nothing -/
   | upstreamRefused
   /-- the upstream received a request with these headers; `ctxUser` is the context user the dispatcher saw -/
   | forwarded (received : Headers) (ctxUser : Identity)
 deriving DecidableEq, Repr
+
+/-- The dispatcher handing the request to the endpoint's transport, with the header set `h1` and the context user left by
+    the filters: gateway credential (plain path only), `WrapRequest`, validation, the wire. -/
+def deliver (token : Str) (upgrade : Bool) (h1 : Headers) (ctxUser : Identity) : Outcome :=
+  let h2 := if upgrade then h1 else bearerAuth token h1
+  match wrapRequest h2 ctxUser with
+  | none => .valueRefused
+  | some h3 =>
+    if upgrade then
+      if transportOK (writeUpgrade h3) then .forwarded (sendOver true h3) ctxUser else .upstreamRefused
+    else
+      if transportOK h3 then .forwarded (sendOver false h3) ctxUser else .transportRefused
 
 /-- One request: raw client header lines, the authenticator's answer, the authorizer (the cluster's POLICY: a function of
     the attributes record it is asked about), the gateway's bearer token.
@@ -431,13 +465,7 @@ def serve (token : Str) (raw : List (Str × Str)) (auth : Option Identity) (az :
       match impersonate (authnStrip h0) u az with
       | .internalError => .internalError
       | .forbidden => .forbidden
-      | .pass h1 ctxUser =>
-        let h2 := if upgrade then h1 else bearerAuth token h1
-        let h3 := wrapRequest h2 ctxUser
-        if upgrade then
-          if transportOK (writeUpgrade h3) then .forwarded (sendOver true h3) ctxUser else .upstreamRefused
-        else
-          if transportOK h3 then .forwarded (sendOver false h3) ctxUser else .transportRefused
+      | .pass h1 ctxUser => deliver token upgrade h1 ctxUser
 
 /-! ## the upstream's decoder -/
 
